@@ -971,7 +971,11 @@ func (g *Gen) multiOutCase(i int) Group {
 		m.Form = Form{Kind: "ctor", Err: g.p(0.3)}
 		for j := 0; j < k; j++ {
 			t := pick(j)
-			m.Form.Rets = append(m.Form.Rets, t)
+			st := t
+			if g.p(0.3) {
+				st = 16 + (j+i)%4 // declared as an interface, implemented by the concrete type
+			}
+			m.Form.Rets = append(m.Form.Rets, st)
 			m.Dyn = append(m.Dyn, t)
 			m.CFail = append(m.CFail, false)
 		}
@@ -983,6 +987,22 @@ func (g *Gen) multiOutCase(i int) Group {
 		}
 	}
 	outs := regOutputs(m)
+	if g.p(0.3) {
+		// the constructor leaves one of its plain outputs nil: nothing is provided for it, the constructor still
+		// runs once per Build / scope, and its other outputs are not replaced when the nil one is asked for
+		var cand []int
+		for k, id := range outs {
+			// a multi-return constructor can leave only an interface-typed return value nil in this sense (a nil
+			// pointer in a pointer-typed return value is an ordinary, if useless, instance); a result object skips
+			// every nil field
+			if id.group == 0 && (m.Form.Kind == "result" || id.ty >= 16) {
+				cand = append(cand, k)
+			}
+		}
+		if len(cand) > 0 && len(outs) > 1 {
+			m.Dyn[cand[g.n(len(cand))]] = tNilOut
+		}
+	}
 	var plain []ident
 	for _, id := range outs {
 		if id.group == 0 {
@@ -1016,7 +1036,11 @@ func (g *Gen) multiOutCase(i int) Group {
 			if life == Singleton && g.p(0.7) {
 				nl = Singleton
 			}
-			n := &Reg{ID: g.nextRid, Life: nl, Form: Form{Kind: "ctor", Params: []Param{{Dep: Dep{Ty: tys[7]}}}, Rets: []int{v.ty}}, Dyn: []int{v.ty}, CFail: []bool{false}, Name: v.name}
+			nd := v.ty
+			if nd >= 16 {
+				nd = g.n(16)
+			}
+			n := &Reg{ID: g.nextRid, Life: nl, Form: Form{Kind: "ctor", Params: []Param{{Dep: Dep{Ty: tys[7]}}}, Rets: []int{v.ty}}, Dyn: []int{nd}, CFail: []bool{false}, Name: v.name}
 			g.nextRid++
 			ops = append(ops, Op{Kind: "add", Reg: n}, Op{Kind: "count"})
 			replaced = true
